@@ -3,6 +3,7 @@ the Coq development (full .vo, never -vos), audit assumptions, extract and build
 driver, build the Rust harness against /repo's working tree, run harness and driver, decide,
 write evidence.  See DESIGN.md section 2.3."""
 import fcntl
+import resource
 import hashlib
 import json
 import os
@@ -55,6 +56,15 @@ class Lock:
     def __exit__(self, *a):
         fcntl.flock(self.f, fcntl.LOCK_UN)
         self.f.close()
+
+
+def big_stack():
+    """extracted OCaml code recurses over long byte lists: lift the stack limit for children"""
+    try:
+        soft, hard = resource.getrlimit(resource.RLIMIT_STACK)
+        resource.setrlimit(resource.RLIMIT_STACK, (hard, hard))
+    except Exception:
+        pass
 
 
 def sh(cmd, cwd=None, timeout=None, env=None, input=None):
@@ -265,7 +275,7 @@ def run_parallel(cmds, timeout=3600):
         while pending and len(running) < NPROC:
             i, (argv, outp) = pending.pop(0)
             f = open(outp, 'w')
-            p = subprocess.Popen(argv, stdout=f, stderr=subprocess.DEVNULL, env=dict(os.environ, OCAMLRUNPARAM='l=8G'))
+            p = subprocess.Popen(argv, stdout=f, stderr=subprocess.DEVNULL, env=dict(os.environ, OCAMLRUNPARAM='l=8G'), preexec_fn=big_stack)
             running.append((i, p, f))
         still = []
         for i, p, f in running:
@@ -454,6 +464,7 @@ def differential(check, prop_id, harness_engine, driver_engine, tier, seed, repl
     if not okh:
         check.obligation_broken('harness does not build against the current /repo', outh)
     agg, maps, failing, samples = {}, {}, [], []
+    blocks = {}
     if not (ok and okh):
         return agg, maps, failing, samples
     os.makedirs(WORK, exist_ok=True)
@@ -491,6 +502,9 @@ def differential(check, prop_id, harness_engine, driver_engine, tier, seed, repl
         for line in text.splitlines():
             if 'corr=DIFF' in line or 'prop=FAIL' in line:
                 failing.append(line)
+                m = re.search(r'\| line=(\d+) \|', line)
+                if m:
+                    blocks[line] = (t, int(m.group(1)))
     for t in traces[-1:]:
         lines = open(t).read().splitlines()
         for i in range(0, min(len(lines), 4 * sample_lines), sample_lines):
@@ -498,7 +512,16 @@ def differential(check, prop_id, harness_engine, driver_engine, tier, seed, repl
     prop_fail = [l for l in failing if 'prop=FAIL' in l]
     corr_only = [l for l in failing if 'prop=FAIL' not in l]
     if prop_fail:
-        text = replay_extract(prop_fail[:25])
+        if all(l in blocks for l in prop_fail):
+            # the verdict names the trace line of the case: copy the complete case blocks (smallest first)
+            texts = []
+            for l in prop_fail[:200]:
+                t, ln = blocks[l]
+                texts.append(case_block(t, ln))
+            texts.sort(key=len)
+            text = ''.join(texts[:10])
+        else:
+            text = replay_extract(prop_fail[:25])
         path = write_replay(prop_id, 'failing_cases.txt', text + '\n# verdicts\n' + '\n'.join('# ' + l[:1500] for l in prop_fail[:25]) + '\n')
         check.violation('%d case(s) on which the real code violates the property predicate' % len(prop_fail), path)
     if corr_only:
@@ -514,6 +537,22 @@ def differential(check, prop_id, harness_engine, driver_engine, tier, seed, repl
         'input_distribution': dict({k: v for k, v in agg.items() if k not in ('cases', 'corr_fail', 'prop_fail', 'nontrivial')}, **maps),
     })
     return agg, maps, failing, samples
+
+
+_TRACE_CACHE = {}
+
+
+def case_block(trace, line_no):
+    """the lines of the case that starts at (1-based) line_no of trace, up to the next `case ` line"""
+    if trace not in _TRACE_CACHE:
+        _TRACE_CACHE[trace] = open(trace).read().split('\n')
+    lines = _TRACE_CACHE[trace]
+    out = [lines[line_no - 1]]
+    i = line_no
+    while i < len(lines) and not lines[i].startswith('case '):
+        out.append(lines[i])
+        i += 1
+    return '\n'.join(l for l in out if l != '') + '\n'
 
 
 def extract_between_bars(lines, index=1):
